@@ -258,9 +258,8 @@ def run(ctx):
         enumerated += [("E1_p1n4.cfg", "every interleaving, P=1, 4 blocks"),
                        ("E1_p2n5f.cfg", "every interleaving with one fork, P=2, 5 blocks"),
                        ("E1_p3n6.cfg", "every interleaving, P=3, 6 blocks"),
-                       ("E1_p2n6a.cfg", "every interleaving, P=2, 6 blocks, threshold 1"),
-                       ("E1_p2n6b.cfg", "every interleaving, P=2, 6 blocks, threshold 2"),
-                       ("E1_cold_p3n7.cfg", "every chain of 7 blocks, P=3, 3 timestamp values, cold answers")]
+                       ("E1_p2n6.cfg", "every interleaving, P=2, 6 blocks (reaches ACTIVE at the minimum activation height)"),
+                       ("E1_cold_p3n7.cfg", "every chain of 7 blocks, P=3, cold answers")]
     def stop():
         # a violation is a verdict: the remaining (larger) models would only repeat it
         if ctx.violations:
